@@ -127,7 +127,7 @@ func init() {
  complex64 complex128 error float32 float64 int int8 int16 int32 int64 rune string uint uint8 uint16 uint32
  uint64 uintptr true false iota nil append cap clear close complex copy delete imag len make max min new
  panic print println real recover json yaml fmt slices strings strconv genum dumplib aux tm
- e ok v s text input err data value uinter64 sint64 floater64 floater32 v0 v1 v2 v3 v4`) {
+ e ok v s text input err data value uinter64 sint64 floater64 floater32 v0 v1 v2 v3 v4 tv`) {
 		reserved[w] = true
 	}
 }
